@@ -49,7 +49,7 @@ try:
             break
     if m is None:
         raise SystemExit("no build line in README")
-    m = re.sub(r"/tmp/seed\d?-C\d+", wt, m)
+    m = re.sub(r"/tmp/seed\d?-C\d+", wt, m).replace("<worktree>", wt)
     m = m.replace("$SRC", wt).replace("${SRC}", wt).replace("$B/", wt + "/_b/").replace("$B ", wt + "/_b ").replace("${B}", wt + "/_b")
     res["demo_cmd"] = m
     demo_dir = os.path.join(wt, "_demo")
